@@ -585,7 +585,7 @@ def check_program(pane, res, idx, prog):
             core.add_violation(res, {'kind': 'repr_order', **sig}, f"{desc} ({which}): repr {rp!r} does not list {[f['name'] for f in eff]} in order", cell, cost)
         # handler inheritance (int-typed plain fields)
         for f in eff:
-            if f['type'] == 'int':
+            if f['type'] == 'int' and not f.get('conv'):      # (a field's own converter= outranks the class's custom=)
                 v = getattr(x, f['name'])
                 if v != 3 * mult:
                     core.add_violation(res, {'kind': 'custom_handlers_inheritance', 'expected_custom': bool(m.opts['custom']), **sig},
